@@ -23,7 +23,8 @@ ASSUMPTIONS = ['thread interleavings are explored at the shim\'s yield points (E
 BUDGET = {'quick': 40, 'thorough': 600}
 
 ENDS = ['exit_setup', 'exit_process', 'exit_shutdown', 'exit_exc_process', 'stop_evt', 'raise_init', 'raise_setup', 'raise_process', 'raise_shutdown', 'exit_after', 'exit_init', 'stop_evt_inside',
-        'prop_clean', 'prop_error']     # the last two: an upstream neighbour ends (cleanly / by an exception) and this filter obeys the propagated exit
+        'prop_clean', 'prop_error',
+        'interrupt_setup', 'interrupt_process', 'interrupt_shutdown']     # the last two: an upstream neighbour ends (cleanly / by an exception) and this filter obeys the propagated exit
 _S = {}
 
 
@@ -89,6 +90,8 @@ def run_case(case):
                 self.exit('bye from setup')
             if end == 'raise_setup':
                 raise Boom('setup')
+            if end == 'interrupt_setup':
+                raise KeyboardInterrupt()       # what SIGINT is when signals are not turned into a stop event (sig_stop=False)
 
         def process(self, frames):
             self.n += 1
@@ -100,7 +103,9 @@ def run_case(case):
                     self.exit('failed', Boom('exit with exc'))
                 if end == 'raise_process':
                     raise Boom('process')
-                if end in ('exit_shutdown', 'raise_shutdown', 'stop_evt_inside'):
+                if end == 'interrupt_process':
+                    raise KeyboardInterrupt()
+                if end in ('exit_shutdown', 'raise_shutdown', 'stop_evt_inside', 'interrupt_shutdown'):
                     self.stop_evt.set()
             return None
 
@@ -109,6 +114,8 @@ def run_case(case):
                 self.exit('bye from shutdown')
             if end == 'raise_shutdown':
                 raise Boom('shutdown')
+            if end == 'interrupt_shutdown':
+                raise KeyboardInterrupt()
 
     from openfilter.filter_runtime.frame import Frame
 
@@ -184,6 +191,9 @@ def run_case(case):
     if end in ('raise_init', 'raise_setup', 'raise_process', 'raise_shutdown', 'exit_exc_process'):
         if res['how'] != 'raised' or res.get('type') != 'Boom':
             return bad(f'harness expectation: {end} should make run() raise Boom, got {res}', f'unexpected-run-result:{end}', classes)
+    elif end.startswith('interrupt_'):
+        if res['how'] != 'raised' or res.get('type') != 'KeyboardInterrupt':
+            return bad(f'harness expectation: {end} should leave run() with KeyboardInterrupt, got {res}', f'unexpected-run-result:{end}', classes)
     elif res['how'] != 'returned':
         return bad(f'{end}: run() raised {res.get("exc")}', f'clean-run-raised:{end}:{res.get("type")}', classes)
     clean = res['how'] == 'returned' and end != 'prop_error'   # an obeyed propagated *error* returns normally but the run did end by an error
@@ -196,7 +206,7 @@ def run_case(case):
         sig = 'no-start' if not seq or seq[0] != 'START' else 'no-terminal-event' if nterm == 0 else 'multiple-terminal-events' if nterm > 1 else 'event-after-terminal'
         return bad(f'{end} ({"clean" if clean else "error"} run): lineage events {seq} are not START RUNNING* (COMPLETE|ABORT)', f'shape:{sig}', classes)
     if seq[-1] != want_t:
-        how = 'ended because a neighbour failed' if end == 'prop_error' else 'returned normally' if clean else 'raised ' + str(res.get('exc'))
+        how = 'ended because a neighbour failed' if end == 'prop_error' else 'was interrupted' if end.startswith('interrupt_') else 'returned normally' if clean else 'raised ' + str(res.get('exc'))
         return bad(f'{end}: run() {how} but the terminal lineage event is {seq[-1]}', f'wrong-terminal:{seq[-1]}', classes)
     if len({e[1] for e in events}) != 1:
         return bad(f'{end}: events carry {len({e[1] for e in events})} different run ids', 'run-id', classes)
